@@ -217,7 +217,7 @@ theorem selectRow_mem {rows : List DispatchRow} {tag : Str} {r : DispatchRow}
       · cases h
 
 theorem rowsFor_sub (tbl : List DispatchRow) (k : TableKind) (key : Str) :
-    ∀ r ∈ rowsFor tbl k key, r ∈ tbl := fun r hr => (List.mem_filter.mp hr).1
+    ∀ r ∈ rowsFor tbl k key, r ∈ tbl := fun _ hr => (List.mem_filter.mp hr).1
 
 theorem pickRows_sub (tbl : List DispatchRow) (sc0 : Str) : ∀ r ∈ (pickRows tbl sc0).2, r ∈ tbl := by
   intro r hr
